@@ -667,6 +667,13 @@ def get_dot_graph_from_partition(partition: DistributedGraphPartition) -> str:
 
     # }}}
 
+    # Names received in one part may be read in another ("usable as input
+    # names by other parts"): number the receive nodes of all parts first.
+    dist_recv_var_name_to_node_id = {
+            name: id_gen("recv")
+            for part in partition.parts.values()
+            for name in part.name_to_recv_node}
+
     # {{{ emit the graph
 
     for part in partition.parts.values():
@@ -705,18 +712,14 @@ def get_dot_graph_from_partition(partition: DistributedGraphPartition) -> str:
 
         # {{{ emit receive nodes
 
-        part_dist_recv_var_name_to_node_id = {}
         for name, recv in (
                 part.name_to_recv_node.items()):
-            node_id = id_gen("recv")
             _emit_array(emit_part, "DistributedRecv", {
                 "shape": stringify_shape(recv.shape),
                 "dtype": str(recv.dtype),
                 "src_rank": str(recv.src_rank),
                 "comm_tag": str(recv.comm_tag),
-                }, node_id)
-
-            part_dist_recv_var_name_to_node_id[name] = node_id
+                }, dist_recv_var_name_to_node_id[name])
 
         # }}}
 
@@ -754,8 +757,8 @@ def get_dot_graph_from_partition(partition: DistributedGraphPartition) -> str:
                             array_to_id[array], "deepskyblue")
 
                 # Emit cross-partition edges
-                if array.name in part_dist_recv_var_name_to_node_id:
-                    tgt = part_dist_recv_var_name_to_node_id[array.name]
+                if array.name in dist_recv_var_name_to_node_id:
+                    tgt = dist_recv_var_name_to_node_id[array.name]
                     emit_root(f"{tgt} -> {array_to_id[array]} [style=dotted]")
                     emitted_placeholders.add(array)
                 elif array.name in part.user_input_names:
